@@ -809,8 +809,10 @@ where
                     // is not Running.
                     let resources = unsafe { data.tail.resources.get_mut().assume_init_mut() };
                     let args = &mut data.tail.args;
-                    fill_submission(target, resources, args, submission);
+                    // NOTE: set before filling the submission so that an
+                    // operation can overwrite the flags.
                     target.set_flags(submission);
+                    fill_submission(target, resources, args, submission);
                     submission.0.user_data = state.user_data();
                     if O::IS_MULTISHOT {
                         // For multishot operations we do NOT poison the resources
